@@ -68,11 +68,14 @@ class World:
                 return s.name
 
         class Blocker(restriction.base, caching=False):
-            __slots__ = ("name", "key", "hits", "type")
+            __slots__ = ("name", "key", "filed", "hits", "type")
 
             def __init__(s, name, key, hits):
                 object.__setattr__(s, "name", name)
-                object.__setattr__(s, "key", key)
+                # like a mangled/virtual blocker in plan.insert_blockers the restriction's own
+                # .key differs from the key it is filed under (passed explicitly as key=)
+                object.__setattr__(s, "filed", key)
+                object.__setattr__(s, "key", "decoy/" + name)
                 object.__setattr__(s, "hits", hits)
                 object.__setattr__(s, "type", restriction.package_type)
 
@@ -116,7 +119,7 @@ class World:
     def project(self):
         ps = self.ps
         slots = sorted(x.name for v in ps.state.slot_dict.values() for x in v)
-        limiters = sorted(x.name for v in ps.state.limiters.values() for x in v)
+        limiters = sorted([x.name, k] for k, v in ps.state.limiters.items() for x in v)
         choice = {n: "-" for n in self.pkgs}
         for p, c in ps.pkg_choices.items():
             choice[p.name] = c.name
@@ -151,10 +154,10 @@ class World:
                 ret = rs.replace_op(self.choices[a["c"]], self.pkgs[a["p"]]).apply(ps)
             elif ev == "addblocker":
                 b = self.blockers[a["b"]]
-                ret = ps.add_blocker(self.choices[a["c"]], b, key=b.key)
+                ret = ps.add_blocker(self.choices[a["c"]], b, key=b.filed)
             elif ev == "dropblocker":
                 b = self.blockers[a["b"]]
-                ret = rs.decref_forward_block_op(self.choices[a["c"]], b, b.key).apply(ps)
+                ret = rs.decref_forward_block_op(self.choices[a["c"]], b, b.filed).apply(ps)
             elif ev == "hardref":
                 ret = rs.add_hardref_op(a["r"]).apply(ps)
             elif ev == "backref":
@@ -177,7 +180,7 @@ class World:
             co = self.choices[c]
             own = [b for b, _k in ps.rev_blockers.get(co, ())]
             for p, po in self.pkgs.items():
-                if p not in slotted and any(b.key == po.key and b.match(po) for b in own):
+                if p not in slotted and any(b.filed == po.key and b.match(po) for b in own):
                     continue  # carve-out: a choice point's own blocker matching its own package
                 if p not in slotted:
                     acts.append(dict(ev="add", c=c, p=p, force=False))
@@ -189,7 +192,7 @@ class World:
                     acts.append(dict(ev="remove", c=c, p=p, force=False))
                     acts.append(dict(ev="backref", c=c, p=p, force=False))
             for b, bo in self.blockers.items():
-                if not any(ps.pkg_choices.get(x) is co and bo.match(x) for x in ps.state.slot_dict.get(bo.key, ())):
+                if not any(ps.pkg_choices.get(x) is co and bo.match(x) for x in ps.state.slot_dict.get(bo.filed, ())):
                     acts.append(dict(ev="addblocker", c=c, b=b))
                 if any(x[0] is bo for x in ps.rev_blockers.get(self.choices[c], ())):
                     acts.append(dict(ev="dropblocker", c=c, b=b))
@@ -261,9 +264,15 @@ def judge(ck, uni, events, label):
         return
     verdicts = ck.trace("PlanState_Trace", [header(uni)] + events, label=label, timeout=1500)
     by = {(e["tid"], e["i"]): e for e in events}
+    first_real = {}
+    for v in verdicts:
+        if v["clause"] != "OutsideDomain":
+            first_real[v["tid"]] = min(first_real.get(v["tid"], 10**9), v["i"])
     for v in verdicts:
         e = by[(v["tid"], v["i"])]
         if v["clause"] == "OutsideDomain":
+            if first_real.get(v["tid"], 10**9) < v["i"]:
+                continue  # the state was already reported as wrong earlier in this history
             raise tlc.MachineryError(f"generator left the property's domain: {e}")
         hist = [dict(ev=x["ev"], c=x["c"], p=x["p"], force=x["force"], b=x["b"], r=x["r"], pos=x["pos"])
                 for x in events if x["tid"] == e["tid"] and x["i"] <= e["i"]]
@@ -294,7 +303,7 @@ def run(ck):
         return
     # 1. model checking of the design
     maxplan = ck.pick(4, 6)
-    res = ck.mc("PlanState_MC", cfg_text=mc_cfg(maxplan), workers=ck.pick(8, 16), timeout=ck.pick(300, 3000),
+    res = ck.mc("PlanState_MC", cfg_text=mc_cfg(maxplan), workers=ck.pick(8, 16), timeout=ck.pick(1500, 6000),
                 label=f"MC:PlanState_MC MaxPlan={maxplan}", expect_ok=False)
     design_violation = res.violated
     ck.extra["model_invariant_violated"] = design_violation or ""
